@@ -475,6 +475,11 @@ def registry_rules(ctx, rule: str):
             stored = stores[0].value if stores else comps[0].value
             ok = len(bound) == 1 and _returns_item(p, data, bound[0], items) and isinstance(stored, ast.Name) and stored.id == key.value.id
         det = "an item must be filed under the id it carries: key `%s`, Item id `%s`" % (ast.unparse(key), ast.unparse(idkw) if idkw is not None else None)
+        if not ok and len(items) != 1:
+            # the Item is not built where this rule can see it (an alternative constructor, a helper two calls away): what
+            # id it carries is not known here -- undecided, not wrong
+            raise AnalysisError("%s: the Item filed under `%s` is built out of sight of the embedded-key rule (%d direct Item(...) "
+                                "constructions within reach); the id it carries is not decided" % (data.where(), ast.unparse(key), len(items)))
     r.ob(rule + ".embedded-key-is-id", data.qualname, ok, det, data.where())
     wrap = [n for n in xwalk(data) if isinstance(n, ast.Call) and isinstance(n.func, ast.Name) and n.func.id == "CircularRecord"]
     okw = bool(wrap) and any("SeqIO.read" in ast.unparse(w) for w in wrap)
@@ -505,6 +510,9 @@ def registry_rules(ctx, rule: str):
     files_da = _archive_args(p, data)
     files_it = _archive_args(p, it) or files_da
     files_ln = _archive_args(p, ln) or files_da
+    if not files_da:
+        raise AnalysisError("%s: how %s opens its archive is not recognised (no pkg_resources.resource_stream / tarfile.open arguments "
+                            "within reach); that iteration, length and lookup read the same archive is not decided" % (data.where(), data.qualname))
     r.ob(rule + ".embedded-siblings", emb.qualname + "#archive", files_it == files_ln == files_da and bool(files_it),
          "iteration, length and lookup must read the same archive: %s / %s / %s" % (files_it, files_ln, files_da), emb.where())
     # every concrete embedded registry keeps these three (no override that breaks the agreement)
@@ -612,7 +620,13 @@ def registry_rules(ctx, rule: str):
     ok = bool(wrap) and any(kw.arg == "entity" and "characterize(record)" in ast.unparse(kw.value) for kw in item_calls[0].keywords) if item_calls else False
     r.ob(rule + ".circular-record", gi.qualname, ok, "the file's record must be wrapped in CircularRecord and that record characterised", gi.where())
 
-    # ---------------- find_resistance ----------------
+    known_resistance_rule(ctx, rule)
+
+
+def known_resistance_rule(ctx, rule: str):
+    """find_resistance returns only values of the antibiotics table, looked up under a key known to be in it, or raises"""
+    p = ctx.program
+    r = ctx.report
     fr = p.get_func("moclo.registry._utils.find_resistance")
     mod = fr.module
     from .roles import resistance_table
@@ -648,7 +662,7 @@ def _terminates(body) -> bool:
 
 
 # provenance lattice of the key under which the table is read
-_OTHER, _MEMBER, _MEMBERS, _SETS = "other", "member", "members", "sets-of-members"
+_OTHER, _MEMBER, _MEMBERS, _SETS, _TABLE = "other", "member", "members", "sets-of-members", "the-table"
 
 
 def table_value_returns(p: Program, fi: FuncInfo, table: str, depth: int = 3) -> List[str]:
@@ -659,15 +673,57 @@ def table_value_returns(p: Program, fi: FuncInfo, table: str, depth: int = 3) ->
     Returns the list of complaints."""
     mod = fi.module
 
-    def is_table(e) -> bool:
+    ALIASES: List[Set[str]] = [set()]  # names of the function under evaluation that stand for the table
+
+    def table_default_helper(callee: FuncInfo) -> bool:
+        """a module-level helper that hands out the table itself unless an optional argument (default None) asks for an
+        extended copy: `if extra is None: return TABLE` ... -- with the defaults of the existing API it is the table"""
+        fn = callee.node
+        a = fn.args
+        pos = a.posonlyargs + a.args
+        none_defaults = {prm.arg for prm, d in zip(pos[len(pos) - len(a.defaults):], a.defaults) if isinstance(d, ast.Constant) and d.value is None}
+        rets = [n for n in ast.walk(fn) if isinstance(n, ast.Return) and n.value is not None]
+        if rets and all(isinstance(n.value, ast.Name) and n.value.id == table for n in rets):
+            return True
+        for st in fn.body:
+            if isinstance(st, ast.If) and isinstance(st.test, ast.Compare) and isinstance(st.test.left, ast.Name) and st.test.left.id in none_defaults \
+                    and len(st.test.ops) == 1 and isinstance(st.test.ops[0], ast.Is) and isinstance(st.test.comparators[0], ast.Constant) \
+                    and st.test.comparators[0].value is None and len(st.body) == 1 and isinstance(st.body[0], ast.Return) \
+                    and isinstance(st.body[0].value, ast.Name) and st.body[0].value.id == table:
+                return True
+        return False
+
+    def is_table(e, _depth=2) -> bool:
+        if isinstance(e, ast.Name) and e.id in ALIASES[-1]:
+            return True
         t = ast.unparse(e)
-        return t in (table, "%s.keys()" % table, "set(%s)" % table, "frozenset(%s)" % table, "list(%s)" % table,
-                     "six.viewkeys(%s)" % table, "six.iterkeys(%s)" % table, "%s.__contains__" % table)
+        if t in (table, "%s.keys()" % table, "set(%s)" % table, "frozenset(%s)" % table, "list(%s)" % table, "tuple(%s)" % table,
+                 "six.viewkeys(%s)" % table, "six.iterkeys(%s)" % table, "%s.__contains__" % table):
+            return True
+        if isinstance(e, ast.Name) and _depth > 0:
+            # a module-level constant that is the table's key set, built once (_CASSETTES = frozenset(_ANTIBIOTICS))
+            raw = mod.assigns.get(e.id)
+            return isinstance(raw, ast.AST) and is_table(raw, _depth - 1)
+        return False
 
     class Env(object):
         def __init__(self, fn: ast.FunctionDef, depth: int, param_kinds: Optional[Dict[str, str]] = None):
             self.fn, self.depth = fn, depth
             param_kinds = param_kinds or {}
+            self.aliases = {k for k, v in param_kinds.items() if v == _TABLE}
+            for a_ in ast.walk(fn):
+                if isinstance(a_, ast.Assign) and len(a_.targets) == 1 and isinstance(a_.targets[0], ast.Name):
+                    nm_, v_ = a_.targets[0].id, a_.value
+                    n_binds = sum(1 for b_ in ast.walk(fn) if isinstance(b_, ast.Assign) and any(isinstance(t_, ast.Name) and t_.id == nm_ for t_ in b_.targets))
+                    if n_binds != 1:
+                        continue
+                    if isinstance(v_, ast.Name) and v_.id == table:
+                        self.aliases.add(nm_)
+                    elif isinstance(v_, ast.Call) and isinstance(v_.func, ast.Name):
+                        callee_ = p.resolve_expr(mod, v_.func)
+                        if isinstance(callee_, FuncInfo) and callee_.owner is None and table_default_helper(callee_):
+                            self.aliases.add(nm_)
+            ALIASES.append(self.aliases)
             self.kinds: Dict[str, str] = {}
             self.parents = {}
             for n in ast.walk(fn):
@@ -685,6 +741,15 @@ def table_value_returns(p: Program, fi: FuncInfo, table: str, depth: int = 3) ->
                 if new == self.kinds:
                     break
                 self.kinds = new
+            ALIASES.pop()
+
+        def __enter__(self):
+            ALIASES.append(self.aliases)
+            return self
+
+        def __exit__(self, *exc):
+            ALIASES.pop()
+            return False
 
         def bindings(self, n):
             if isinstance(n, ast.Assign):
@@ -754,7 +819,13 @@ def table_value_returns(p: Program, fi: FuncInfo, table: str, depth: int = 3) ->
             return False
 
         def kind(self, e) -> str:
+            with self:
+                return self._kind(e)
+
+        def _kind(self, e) -> str:
             if isinstance(e, ast.Name):
+                if e.id in self.aliases or e.id == table:
+                    return _TABLE
                 if self.guarded(e):
                     return _MEMBER
                 return self.kinds.get(e.id, _OTHER)
@@ -766,6 +837,7 @@ def table_value_returns(p: Program, fi: FuncInfo, table: str, depth: int = 3) ->
                 # a collection of per-item member collections: (labels(f).intersection(table) for f in features)
                 sub = Env.__new__(Env)
                 sub.fn, sub.depth, sub.kinds, sub.parents = self.fn, self.depth, dict(self.kinds), self.parents
+                sub.aliases = set(self.aliases)
                 for x in ast.walk(e.generators[0].target):
                     if isinstance(x, ast.Name):
                         sub.kinds[x.id] = _OTHER
@@ -802,6 +874,11 @@ def table_value_returns(p: Program, fi: FuncInfo, table: str, depth: int = 3) ->
                     if f.attr in ("copy",) and self.kind(f.value) == _MEMBERS:
                         return _MEMBERS
                 if isinstance(f, ast.Name):
+                    # known = KEYS.intersection, hoisted out of a loop: known(labels) is KEYS.intersection(labels)
+                    binds_ = [a.value for a in ast.walk(self.fn) if isinstance(a, ast.Assign) and len(a.targets) == 1
+                              and isinstance(a.targets[0], ast.Name) and a.targets[0].id == f.id]
+                    if len(binds_) == 1 and isinstance(binds_[0], ast.Attribute) and binds_[0].attr == "intersection" and is_table(binds_[0].value) and e.args:
+                        return _MEMBERS
                     if f.id in ("set", "list", "sorted", "tuple", "frozenset", "iter", "reversed") and len(e.args) == 1 and self.kind(e.args[0]) == _MEMBERS:
                         return _MEMBERS
                     if f.id in ("next", "min", "max") and len(e.args) == 1 and self.kind(e.args[0]) == _MEMBERS:
@@ -817,7 +894,10 @@ def table_value_returns(p: Program, fi: FuncInfo, table: str, depth: int = 3) ->
                         return _MEMBERS
                     callee = p.resolve_expr(mod, f)
                     if isinstance(callee, FuncInfo) and callee.owner is None and self.depth > 0:
-                        sub = Env(callee.node, self.depth - 1)
+                        ps_ = [a_.arg for a_ in callee.node.args.posonlyargs + callee.node.args.args]
+                        pk_ = {ps_[i_]: _TABLE for i_, a_ in enumerate(e.args) if i_ < len(ps_) and is_table(a_)}
+                        pk_.update({kw_.arg: _TABLE for kw_ in e.keywords if kw_.arg and is_table(kw_.value)})
+                        sub = Env(callee.node, self.depth - 1, pk_)
                         ks = set()
                         for rn in ast.walk(callee.node):
                             if isinstance(rn, ast.Return):
@@ -843,10 +923,11 @@ def table_value_returns(p: Program, fi: FuncInfo, table: str, depth: int = 3) ->
                 if len(defs) == 1:
                     v = defs[0]
             key = None
-            if isinstance(v, ast.Subscript) and ast.unparse(v.value) == table:
+            reads_table = lambda x: ast.unparse(x) == table or (isinstance(x, ast.Name) and x.id in env.aliases)
+            if isinstance(v, ast.Subscript) and reads_table(v.value):
                 key = v.slice
             elif (isinstance(v, ast.Call) and isinstance(v.func, ast.Attribute) and v.func.attr == "get"
-                  and ast.unparse(v.func.value) == table and len(v.args) == 1 and not v.keywords):
+                  and reads_table(v.func.value) and len(v.args) == 1 and not v.keywords):
                 key = v.args[0]
             elif isinstance(v, ast.Call) and isinstance(v.func, ast.Name) and depth > 0:
                 callee = p.resolve_expr(mod, v.func)
